@@ -53,6 +53,11 @@ CHECKS = {
             'z3 proves split == flattened for each enumerated import layout on every database with <=2 rows per table; CrossHair confirms distinct non-empty prefixes for all ordered pairs of distinct import paths up to depth 2 (3 thorough) over a 3-word alphabet, and that imports are rejected exactly per the documented rules over 15x8 configurations.',
             'Trusted: lv/sqlsem.py, z3, CrossHair. Outside: C++ parser, import graphs beyond the layouts.',
             'DESIGN.md §3 C12', 'sqlsmt'),
+    'C13': ('other',
+            'CrossHair symbolic execution of the real parse.ParseGenericCall under both values of the module-level parser switch; candidates replayed end to end (compile A, parse a program with the incantation, compile A again, compare SQL)',
+            'Only the history channel through parse.TOO_MUCH is decided: either CrossHair confirms that parsing does not depend on the switch, or the dependence is reproduced end to end (the listed known finding).',
+            'Trusted: CrossHair. Not decided: hash-seed / set-order variation, reuse of parsed rules, class-level tables of QL (harnesses around whole compilations or QL construction do not finish under CrossHair; see DESIGN.md).',
+            'DESIGN.md §3 C13', 'kern'),
     'C14': ('other',
             '(a) CrossHair symbolic execution of the real Concertina scheduler over symbolic DAGs, iteration groups, repetition counts and stop instants ("Confirmed over all paths"); (b) z3 equivalence of plans executed by the real ExecuteLogicaProgram with a symbolic sql_runner for different sets of requested predicates; counterexamples replayed on the real code',
             'All 64 DAGs on 4 actions x iteration-group shapes x repetitions 1..3 (and stop instants) are confirmed to run every action after its prerequisites, non-iterated ones once, iterated ones round-robin the declared number of times, and to terminate; compiled @Ground/deep-recursion plans return the same table for a predicate whether asked alone or with others, never read a table before it is produced, and satisfy the shape invariant the scheduler proof assumes.',
